@@ -17,6 +17,7 @@ func init() {
 func runC02(c *Ctx) {
 	borrow(c, "O15", "C17", "O1", "", "a reservation pod that is created, inspected and deleted without its group's mutex can be deleted by a concurrent node sync between its creation and the labelling of its first sharer: the sharer stays on a device that the device plugin hands out again")
 	runC02PortionRounding(c)
+	runC02LimitScanCoversInitContainers(c)
 	borrow(c, "O16", "C17", "O2", "every handed-out mutex is counted", "a waiter that is not counted loses the group mutex when the holder releases: a concurrent sync deletes the reservation pod of a sharer that is between reservation and labelling, and the device is handed out again")
 	borrow(c, "O17", "C01", "O12", "every pod in a resource-occupying status is added to the node", "a terminating sharer that is not put on its node leaves its group looking emptier (or its device looking idle): the share is handed out again while the pod still runs")
 	borrow(c, "O10", "C13", "O9", "PodInfo.GPUGroups restored before", "an undone eviction re-adds the sharer to its node under the group ids it carries at that moment: with the ids of the simulated placement its share leaves the real device, which then looks free")
@@ -479,4 +480,34 @@ func runC02PortionRounding(c *Ctx) {
 		// no rounding at all: the exact ratio is not below the request
 		c.Hold("O14", "PROV", funcKey(f)+": the portion of a gpu-memory request is never rounded down", f.Pos(), "exact ratio")
 	}
+}
+
+// runC02LimitScanCoversInitContainers (O18): a pod that asks for a share of a GPU by annotation must not also claim a
+// whole device through a container limit — the scheduler accounts the share only, the kubelet would hand out the
+// device as well. The admission check looks for such a limit in the regular AND the init containers: getFirstGPULimit
+// reads both lists of the pod spec.
+func runC02LimitScanCoversInitContainers(c *Ctx) {
+	f := c.Anchor("O18", "pkg/binder/plugins/gpusharing/gpu-request", "", "getFirstGPULimit")
+	if f == nil {
+		return
+	}
+	// the lists that flow into what is scanned: the slices that are indexed / ranged over, traced back through append
+	read := map[string]bool{}
+	for _, h := range c.P.deepFind(f, func(in ssa.Instruction) bool {
+		ia, ok := in.(*ssa.IndexAddr)
+		return ok && strings.Contains(typeKey(ia.X.Type()), "k8s.io/api/core/v1.Container")
+	}, 1) {
+		for _, src := range valueSources(h.In.(*ssa.IndexAddr).X, 6) {
+			if u, ok := src.(*ssa.UnOp); ok {
+				if fa, ok := u.X.(*ssa.FieldAddr); ok {
+					if n := termOf(fa).lastField(); n == "Containers" || n == "InitContainers" {
+						read[n] = true
+					}
+				}
+			}
+		}
+	}
+	c.Check(read["Containers"] && read["InitContainers"], "O18", "FIELDS", funcKey(f)+": the GPU limit is looked for in regular and init containers", f.Pos(), "reads Spec.Containers and Spec.InitContainers",
+		"the admission check for a whole-GPU limit next to a fractional request does not look at both container lists: a fractional pod with nvidia.com/gpu in an init container is admitted, the scheduler charges a share of one device and the kubelet hands out a whole device it still counts as idle")
+	c.Floor("O18", "FIELDS container lists read by the limit scan", len(read), 2)
 }
